@@ -227,6 +227,31 @@ def sc_behind(name, rnd, serve):
     return s.d
 
 
+def sc_fresh_views(name, rnd, h0=0, srih=False, big=False):
+    """The node's answer is needed in every view it is a backup in (one validator silent), and the primary of every view proposes
+    transactions of its own that only ONE answering peer holds (another, mute, peer has them too): nothing reaches the node except
+    in answer to its own getdata.  The node is the primary of view 3 only, the primary of view 0 is the silent one: views 1 and 2 are
+    decided only if the node fetches, verifies and answers."""
+    h = h0 + 1
+    me = (h - 3) % NV
+    quiet = h % NV
+    npeers = rnd.choice([3, 4])
+    mute = rnd.randrange(1, npeers + 1)
+    holder = rnd.choice([i for i in range(1, npeers + 1) if i != mute])
+    peers = {i: {"mute": i == mute, "order": rnd.choice(["asc", "desc"]), "dup": rnd.random() < 0.3} for i in range(1, npeers + 1)}
+    k = rnd.randrange(1, 4) if not big else rnd.randrange(505, 530)      # big: more than one getdata can name (MaxHashesCount = 500)
+    s = Sc(name, me=me, h0=h0, ntx=2 * k, srih=srih, npeers=npeers, min_peers=3, peers=peers)
+    s.connect(*range(1, npeers + 1)).sync()
+    v1 = ["t%d" % i for i in range(1, k + 1)]
+    v2 = ["t%d" % i for i in range(k + 1, 2 * k + 1)]
+    for p in (holder, mute):
+        s.step("give", p=p, t=v1 + v2)
+    s.step("decide", n=me, i=h, t=[], silent=[quiet], views=[None, v1, v2], via=rnd.choice(["push", "inv", "mix"]))
+    s.step("fetchblk", p=holder, i=h, by=rnd.choice(["hash", "index"]))
+    s.sync()
+    return s.d
+
+
 def sc_race(name, rnd, srih=False):
     """The proposal names a transaction the node does not have; it arrives (pushed by a peer nobody asked) and is pooled AFTER the
     service has looked it up and BEFORE the server has registered the request (interleaving forced through the RequestTx callback).
@@ -247,6 +272,10 @@ def sc_race(name, rnd, srih=False):
 def scripted(rnd, q):
     out = [sc_race("race-lookup-request", rnd), sc_maxhashes("maxhashes-0", rnd), sc_behind("behind-starved", rnd, False),
            sc_behind("behind-catchup", rnd, True), sc_two_heights("two-heights-0", rnd, srih=False, h0=0)]
+    for k in range(3 if q else 16):
+        out.append(sc_fresh_views("fresh-views-%d" % k, rnd, h0=rnd.choice([0, 1, 2, 3]), srih=(k % 2 == 1)))
+    for k in range(1 if q else 3):
+        out.append(sc_fresh_views("fresh-views-big-%d" % k, rnd, h0=rnd.choice([0, 1]), big=True))
     for k in range(1, 2 if q else 6):
         out.append(sc_two_heights("two-heights-%d" % k, rnd, srih=(k % 2 == 1), h0=rnd.choice([0, 1, 2, 5])))
         out.append(sc_maxhashes("maxhashes-%d" % k, rnd))
@@ -390,7 +419,8 @@ def run_ext(ctx):
     if res is None:
         return
     ctx.absorb(res)
-    trace = os.path.join(res["_out"], "trace.ndjson")
+    trace = os.path.join(ctx.work, "trace-fast.ndjson")
+    os.replace(os.path.join(res["_out"], "trace.ndjson"), trace)
     # 5. TLC judges the recorded runs against the abstract level
     clean = judge(ctx, trace, scenarios)
     ctx.traces_validated += res.get("traces", 0)
